@@ -327,3 +327,117 @@ pub fn c08_elastic_net_guards() {
     vp_assert!(ElasticNet::fit(&x, &y, ElasticNetParameters::default()).is_err(), "C08:elastic-net-length-mismatch-is-an-error");
     vp_reached!();
 }
+
+// ---------------------------------------------------------------------------------------------
+// C08: what Lasso / elastic net hand to the optimiser, and how they map its answer back (p = 1, no normalisation).
+// The optimiser is replaced by a recorder that logs lambda and the design it receives and returns w = 1; the stated objectives
+//   Lasso:        ||y - mean(y) - x w||^2 + n alpha |w|
+//   elastic net:  ||y - mean(y) - x w||^2 + n alpha (1 - rho) w^2 + n alpha rho |w|
+// require lambda = n alpha (Lasso) and, for the augmented formulation with gamma = 1/sqrt(1 + l2), lambda = l1 * gamma, design
+// gamma * [x; sqrt(l2)], coefficient gamma * w, intercept mean(y).  Natively (replay: no stubs) the fitted coefficient is compared
+// with the closed-form one-dimensional minimiser (soft threshold).
+// ---------------------------------------------------------------------------------------------
+pub fn rec_optimize<T: RealNumber, M: Matrix<T>>(
+    _s: &mut InteriorPointOptimizer<T, M>,
+    x: &M,
+    y: &M::RowVector,
+    lambda: T,
+    _max_iter: usize,
+    _tol: T,
+) -> Result<M, Failed> {
+    let (n, p) = x.shape();
+    log64(lambda.to_f64().unwrap());
+    log64(n as f64);
+    log64(p as f64);
+    log64(y.len() as f64);
+    for i in 0..n {
+        log64(x.get(i, 0).to_f64().unwrap());
+    }
+    Ok(M::ones(p, 1))
+}
+
+fn soft(c: f64, t: f64) -> f64 {
+    if c > t {
+        c - t
+    } else if c < -t {
+        c + t
+    } else {
+        0.0
+    }
+}
+
+macro_rules! objective_weights {
+    ($name:ident, $elastic:expr, $alpha:expr, $rho:expr) => {
+        #[cfg_attr(kani, kani::proof)]
+        #[cfg_attr(kani, kani::unwind(7))]
+        #[cfg_attr(kani, kani::stub(std::fmt::format, crate::common::no_format))]
+        #[cfg_attr(kani, kani::stub(smartcore::error::Failed::fit, crate::common::trap_fit))]
+        #[cfg_attr(kani, kani::stub(smartcore::linear::lasso_optimizer::InteriorPointOptimizer::optimize, crate::c07_c08_linear::rec_optimize))]
+        pub fn $name() {
+            let mut xi = [0i32; 3];
+            let mut yi = [0i32; 3];
+            let mut x = [0f64; 3];
+            let mut y = vec![0f64; 3];
+            for t in 0..3 {
+                let (a, b) = lat64(-3, 3);
+                xi[t] = a;
+                x[t] = b;
+                let (a, b) = lat64(-4, 4);
+                yi[t] = a;
+                y[t] = b;
+            }
+            let sxx = (xi[0] * xi[0] + xi[1] * xi[1] + xi[2] * xi[2]) as f64;
+            kani::assume(sxx > 0.0);
+            let sy = (yi[0] + yi[1] + yi[2]) as f64;
+            let alpha: f64 = $alpha;
+            let rho: f64 = $rho;
+            let xm = DenseMatrix::from_array(3, 1, &x);
+            let (w, b) = if $elastic {
+                let params = ElasticNetParameters { alpha, l1_ratio: rho, normalize: false, tol: 1e-6, max_iter: 1000 };
+                match ElasticNet::fit(&xm, &y, params) {
+                    Ok(m) => (m.coefficients().get(0, 0), m.intercept()),
+                    Err(_) => vp_fail!("C08:elastic-net-fit-failed"),
+                }
+            } else {
+                let params = LassoParameters { alpha, normalize: false, tol: 1e-6, max_iter: 1000 };
+                match Lasso::fit(&xm, &y, params) {
+                    Ok(m) => (m.coefficients().get(0, 0), m.intercept()),
+                    Err(_) => vp_fail!("C08:lasso-fit-failed"),
+                }
+            };
+            let l1 = if $elastic { 3.0 * alpha * rho } else { 3.0 * alpha };
+            let l2 = if $elastic { 3.0 * alpha * (1.0 - rho) } else { 0.0 };
+            vp_assert!((b - sy / 3.0).abs() <= 1e-12, "C08:intercept-is-mean-of-y-without-normalisation");
+            if cfg!(vp_playback) {
+                // closed-form minimiser for one feature: w = soft(sum x (y - mean), l1/2) / (sum x^2 + l2)
+                let mut c = 0f64;
+                for t in 0..3 {
+                    c += x[t] * (y[t] - sy / 3.0);
+                }
+                let want = soft(c, l1 / 2.0) / (sxx + l2);
+                vp_assert!((w - want).abs() <= 1e-3 * (1.0 + want.abs()), "C08:coefficient-minimises-the-stated-objective");
+            } else {
+                let g = 1.0 / (1.0 + l2).sqrt();
+                let rows = if $elastic { 4 } else { 3 };
+                vp_assert!(nlog64() == 4 + rows, "C08:optimiser-called-once-with-the-expected-design");
+                vp_assert!((getlog64(0) - l1 * g).abs() <= 1e-12, "C08:l1-weight-handed-to-the-optimiser");
+                vp_assert!(getlog64(1) == rows as f64 && getlog64(2) == 1.0 && getlog64(3) == rows as f64, "C08:design-shape-handed-to-the-optimiser");
+                for t in 0..3 {
+                    vp_assert!((getlog64(4 + t) - g * x[t]).abs() <= 1e-12, "C08:design-handed-to-the-optimiser");
+                }
+                if $elastic {
+                    vp_assert!((getlog64(7) - g * l2.sqrt()).abs() <= 1e-12, "C08:ridge-padding-handed-to-the-optimiser");
+                }
+                // the recorder answers w = 1: the reported coefficient is gamma * 1
+                vp_assert!((w - g).abs() <= 1e-12, "C08:coefficient-mapped-back");
+            }
+            vp_reached!();
+        }
+    };
+}
+// @vp name=c08_lasso_objective_weights prop=C08 tier=quick t=480 fns=Lasso::fit size=3x1 dom=x,y-lattice,alpha=0.5,no-normalisation stubs=rec_optimize,trap_fit,no_format
+objective_weights!(c08_lasso_objective_weights, false, 0.5, 1.0);
+// @vp name=c08_elastic_net_objective_weights prop=C08 tier=quick t=480 fns=ElasticNet::fit,augment_x_and_y size=3x1 dom=x,y-lattice,alpha=1,l1_ratio=0.5,no-normalisation stubs=rec_optimize,trap_fit,no_format
+objective_weights!(c08_elastic_net_objective_weights, true, 1.0, 0.5);
+// @vp name=c08_elastic_net_objective_weights_b prop=C08 tier=quick t=480 fns=ElasticNet::fit,augment_x_and_y size=3x1 dom=x,y-lattice,alpha=2,l1_ratio=0.25,no-normalisation stubs=rec_optimize,trap_fit,no_format
+objective_weights!(c08_elastic_net_objective_weights_b, true, 2.0, 0.25);
